@@ -36,7 +36,7 @@ static std::string do_job(const gr_face *face, const gr_font *font, Job &j) {
             uint16_t lang = 0x0409; uint32_t len = 0;
             void *l = gr_fref_label(fr, &lang, gr_utf8, &len);
             if (l) { out += "|L" + std::to_string(len); gr_label_destroy(l); }
-            gr_feature_val *fv = gr_face_featureval_for_lang(face, 0);
+            gr_feature_val *fv = gr_face_featureval_for_lang(face, j.sp.use_lang ? j.sp.lang : 0);
             out += "|V" + std::to_string(gr_fref_feature_value(fr, fv));
             gr_featureval_destroy(fv);
         }
@@ -101,6 +101,10 @@ int main(int argc, char **argv) {
                     j.sp.enc = 4; j.sp.dir = int(r(8)); j.sp.text.assign(reinterpret_cast<const uint8_t *>(tx.data()), reinterpret_cast<const uint8_t *>(tx.data()) + tx.size() * 4);
                     j.use_font = r(2); j.perturb = r(1 << 13); j.query_labels = r(4) == 0;
                     if (r(4) == 0) { unsigned nf = gr_face_n_fref(ref.face); if (nf) { const gr_feature_ref *fr = gr_face_fref(ref.face, uint16_t(r(nf))); unsigned nv = gr_fref_n_values(fr); if (fr && nv) j.sp.feats.push_back({gr_fref_id(fr), uint16_t(gr_fref_value(fr, uint16_t(r(nv))))}); } }
+                    {   // a language of the font in one job out of three: gr_face_featureval_for_lang(face, lang) reads the Sill table concurrently
+                        unsigned nl = gr_face_n_languages(ref.face);
+                        if (nl && r(3) == 0) { j.sp.use_lang = true; j.sp.lang = gr_face_lang_by_index(ref.face, uint16_t(r(nl))); }
+                    }
                     w.jobs.push_back(j);
                 }
             }
